@@ -6,7 +6,7 @@ namespace Slock.Conn
 /-- the registration a single event adds for connection `c` -/
 def regDelta (s : Server) (e : Event) (c : Nat) : List Nat :=
   match e with
-  | .will c' tok _ => if c' = c ∧ (step s e).2 = .ok then [tok] else []
+  | .will c' tok _ _ => if c' = c ∧ (step s e).2 = .ok then [tok] else []
   | _ => []
 
 /-- the will registrations of connection `c` the server accepted during `evs` (starting in `s`), in order -/
@@ -134,8 +134,8 @@ theorem regOpt_step (s : Server) (e : Event) (c : Nat) :
         split
         · rfl
         · (refine regOpt_set hx _ ?_ c; rfl)
-    | will k tok imm =>
-      have h1 : step s (.will k tok imm) = stepWill s k tok imm := by unfold step; simp [hd]
+    | will k tok imm sf =>
+      have h1 : step s (.will k tok imm sf) = stepWill s k tok imm sf := by unfold step; simp [hd]
       unfold regDelta
       rw [h1]
       unfold stepWill
